@@ -2,7 +2,7 @@
    facts about the RFC 3986 5.2 specification, and the recorded defects. *)
 From Sophia.Common Require Import Prelude.
 From Sophia.C09 Require Import Regex Rfc3987 Resolve Model PreFix.
-From Sophia.C09 Require Lang EquivIri EquivIrel.
+From Sophia.C09 Require Lang EquivIri EquivIrel Classify.
 
 (* ---------- part (1): validation = RFC 3987 ---------- *)
 Theorem is_absolute_iri_ref_spec : forall s, is_absolute_iri_ref s = matchb IRI s.
@@ -33,6 +33,21 @@ Theorem is_absolute_iri_ref_lang : forall s, is_absolute_iri_ref s = true <-> La
 Proof. intro s. rewrite is_absolute_iri_ref_spec. apply Lang.matchb_spec. Qed.
 Theorem is_relative_iri_ref_lang : forall s, is_relative_iri_ref s = true <-> Lang.langc irelative_ref s.
 Proof. intro s. rewrite is_relative_iri_ref_spec. apply Lang.matchb_spec. Qed.
+
+(* classification: an accepted reference is absolute or relative, never both *)
+Theorem absolute_relative_exclusive : forall s,
+  is_absolute_iri_ref s = true -> is_relative_iri_ref s = false.
+Proof.
+  intros s H. rewrite is_absolute_iri_ref_spec in H. rewrite is_relative_iri_ref_spec.
+  apply Classify.iri_irelative_ref_disjoint. exact H.
+Qed.
+Theorem valid_iff_absolute_xor_relative : forall s,
+  is_valid_iri_ref s = xorb (is_absolute_iri_ref s) (is_relative_iri_ref s).
+Proof.
+  intro s. unfold is_valid_iri_ref. fold (is_absolute_iri_ref s). fold (is_relative_iri_ref s).
+  destruct (is_absolute_iri_ref s) eqn:E; [|destruct (is_relative_iri_ref s); reflexivity].
+  rewrite (absolute_relative_exclusive s E). reflexivity.
+Qed.
 
 (* ---------- the pre-fix regexes (frozen copy) are NOT the grammar ---------- *)
 Definition s_valid_rejected : str :=    (* "http://[1:2::3]/" *)
@@ -151,7 +166,8 @@ Proof.
                match f with Some (c, r) => c :: r | None => [] end).
   { destruct f as [[c r]|]; [|reflexivity]. simpl.
     pose proof (split_first_char _ _ _ _ _ Ef) as H. apply N.eqb_eq in H. subst c. reflexivity. }
-  rewrite Hq, Hf. rewrite Hs, Hs1 at 2. rewrite <- Hsr, <- Hap.
+  rewrite Hq, Hf. clear Hq Hf Ef Eq Ed Esr Eap.
+  rewrite Hs. rewrite Hs1. rewrite <- Hsr. rewrite <- Hap.
   rewrite <- !app_assoc. reflexivity.
 Qed.
 
